@@ -342,6 +342,30 @@ def functional_interface_violations(c):
             out.append(V(f'{via}/input-state-changed', f'{c["state"]} a={a.name} atoms={c["atoms"]}: the state stepped from now reads {enc_state(s0)}'))
         elif _mutable_nodes(s0) & _mutable_nodes(s1):
             out.append(V(f'{via}/next-state-shares-mutable-part-with-input', f'{c["state"]} a={a.name} atoms={c["atoms"]}'))
+        if not out:
+            # the same State object again, after it has been changed in place: the step starts from the
+            # state as it is now, not as it was at the earlier call
+            b = ACTIONS[(c['action'] + 3) % len(ACTIONS)]
+            try:
+                for f in (trf.turn_agent, trf.move_agent, trf.pickndrop, trf.actuate_door):
+                    f(s0, b)
+                mid = enc_state(s0)
+                ref2 = state_from_str(mid)
+                r2 = ScriptRng(list(c['answers']))
+                for i in c['atoms']:
+                    trf.transition_function_registry[TRANS_NAMES[i]](ref2, a, rng=r2)
+                rng2 = ScriptRng(list(c['answers']))
+                if via == 'transition_with_copy':
+                    s1b = trf.transition_with_copy(chain, s0, a, rng=rng2)
+                else:
+                    env._rng = rng2
+                    s1b = env.functional_step(s0, a)[0]
+                if enc_state(s1b) != enc_state(ref2):
+                    out.append(V(f'{via}/steps-from-a-stale-copy-of-the-state', f'{mid} a={a.name} atoms={c["atoms"]} (the same State object had been stepped before and then changed in place): {enc_state(s1b)} instead of {enc_state(ref2)}'))
+            except ValueError:
+                pass
+            except Exception:
+                pass
         if r is not None and not out:
             p0, p1 = fresh(), state_from_str(want)
             exp_r, exp_d = sum(f(p0, a, p1) for f in rewards), term(p0, a, p1)
@@ -2059,8 +2083,11 @@ def reset_call(c, rng=None):
     ren = {'n': 'num_obstacles' if c['name'] == 'dynamic_obstacles' else 'num_rivers', 'nb': 'num_beacons', 'ne': 'num_exits'}
     for k, v in p.items():
         kw[ren.get(k, k)] = v
+    g = rng if rng is not None else np.random.default_rng(c['seed'])
+    if c.get('via') == 'factory':
+        return rsf.factory(c['name'], shape=Shape(h, w), **kw)(rng=g)
     fn = rsf.reset_function_registry[c['name']]
-    return fn(Shape(h, w), rng=rng if rng is not None else np.random.default_rng(c['seed']), **kw)
+    return fn(Shape(h, w), rng=g, **kw)
 
 
 def reset_valid(c):
@@ -2113,7 +2140,10 @@ class C13(Oracle):
         ps = param_stream(rng)
         while True:
             name, kw = next(ps)
-            yield reset_case_to_json(name, kw, rng.randrange(2**31))
+            c = reset_case_to_json(name, kw, rng.randrange(2**31))
+            if rng.random() < 0.3:
+                c['via'] = 'factory'  # the same call through the registry: `factory(name, **parameters)(rng=...)`
+            yield c
 
     def from_line(self, line):
         return None
@@ -3019,6 +3049,23 @@ class C14(Oracle):
             plan, exhausted = self._search(chain, term, goal_fn, s, True, 150000 if cells <= 25 else 30000)
         else:
             plan, exhausted = self._search(chain, term, goal_fn, s, False, 400000)
+        if plan is not None and not stochastic:
+            # the plan is a plan of the *environment*: its own step (membership checks included) takes it
+            atoms_ = c['atoms'] if c['kind'] == 'state' else corr_win.SETUPS[name][0]
+            try:
+                env = custom_env({'state': enc_state(s), 'area': [-2, 0, -1, 1], 'obs': 'fully_transparent', 'trans': [TRANS_NAMES[i] for i in atoms_]})
+                env.set_seed(0)
+                cur = env.functional_reset()
+                ref = s
+                for a, _ in plan:
+                    ref = trf.transition_with_copy(chain, ref, a, rng=None)
+                    cur, _, _ = env.functional_step(cur, a)
+                    if enc_state(cur) != enc_state(ref):
+                        out.append(V('environment/step-differs-from-the-dynamics-along-a-winning-plan', where))
+                        break
+            except Exception as e:
+                out.append(V('environment/winning-plan-cannot-be-executed', f'{where}: {type(e).__name__}: {e}'))
+            return out
         if plan is not None or not exhausted:
             return out
         # unwinnable: classify
